@@ -1,6 +1,6 @@
-import GrVerif.Proofs.HeapAssoc
+import GrVerif.Proofs.Forest7
 /-!
-# C04 — glyph attachments form a forest over the segment's own slots   (partial)
+# C04 — glyph attachments form a forest over the segment's own slots   (partial: left-to-right pipeline, base chain not modelled)
 
 The attachment primitives are modelled pointer assignment by pointer assignment in `Model/Seg.lean`
 (`child`, `sibling`, `removeChild`, `removeSib`, `detachChildren`, `Seg.unparent`, `Seg.attach`, `setAttTo`, `Seg.detach`).
@@ -12,9 +12,22 @@ Proved here:
   copy or a deleted slot (the last one is the repair of D-12), and when the target's ancestor chain contains the slot
   (cycle) or the chains are 100 or more slots long it only detaches from the old parent.
 
-NOT proved (decided by the correspondence of this model with the real engine and by the forest predicate evaluated on the
-implementation's dumps, `tools/props/c04.py`): that parent chains always end, that child chains enumerate exactly the
-attached slots after every action program, and the base chain built by `linkClusters`.
+* **the forest invariant** (`Proofs/Forest*.lean`): `Forest s` – over the slots that are not temporary copies, the chain
+  `child i, sibling, sibling, …` of every slot `i` ends, repeats no slot and consists *exactly* of the slots whose
+  `parent` is `i`; a depth function strictly increases from parent to child (no cycles); roots have no sibling; parents
+  are real slots that are not on the free list.  It is kept by **every** slot-manipulating opcode (`every_opcode_keeps_forest`:
+  `next`, `insert`, `delete`, `put_copy`, `assoc`, `temp_copy`, `attr_set attach.to`, …), hence by every action program and
+  its garbage collection (`action_keeps_forest`), by the rule loop, by every run of passes, and therefore holds in every
+  segment the modelled pipeline returns (`pipeline_forest`), with the client-visible consequences `forest_for_clients`:
+  from every slot the walk along `attached_to` ends at a base after at most `depth` steps; a slot with a parent occurs
+  exactly once in its parent's chain; every member of a chain names that parent.
+
+Trying to prove this found two genuine defects in `put_copy` (a slot made its own parent; a slot attached to a deleted,
+never collected slot) – both repaired in `/repo` (see `known_findings.json`), the model follows the repaired code.
+
+NOT proved: that the parent of a stream slot is itself a slot *of the stream* (proved: it is a real slot that is not on
+the free list), and the base chain built by `linkClusters` (not modelled) – decided by the correspondence of this model
+with the real engine and by the forest predicate evaluated on the implementation's dumps (`tools/props/c04.py`).
 -/
 set_option linter.unusedVariables false
 namespace GrVerif.Props.C04
@@ -62,6 +75,68 @@ theorem attach_refuses (s : Seg) (i other : Nat)
   rcases h with h | h
   · simp [h]
   · intro hh; exact h hh.1
+
+/-! ## the forest -/
+
+/-- **every opcode keeps the forest** (together with the stream invariant and the slot-map cell invariant) -/
+theorem every_opcode_keeps_forest : OpsPreserve PF := ops_PF
+
+/-- **C04, rule actions.** -/
+theorem action_keeps_forest {is : List Instr} {dl : Bool} {mr : Nat} {data : List Nat} {ctx : Ctx} {l : List Nat}
+    (hl : Linked ctx.seg l) (hc : Clean ctx.seg l) (hh : ∀ x, ctx.highwater = some x → x ∈ l)
+    (hcell : IsOK ctx.seg l (ctx.smap.getD ((ctx.context : Int) + 1).toNat none))
+    (hF : Forest ctx.seg) (hcells : CellsOK ctx)
+    {r : Int} {st : Status} {so : Option Nat} {c : Ctx}
+    (e : doAction is dl mr data ctx = .ok (r, st, so, c)) : Forest c.seg :=
+  doAction_forest hl hc hh hcell hF hcells e
+
+/-- **C04, whole pipeline.** For every font – any passes, state tables, rules, constraint and action programs – and every
+text: the attachment pointers of the segment the modelled pipeline returns form a forest, and its glyph stream is well
+formed (so the slots of the stream are real slots). -/
+theorem pipeline_forest (font : Pass.Font) (text : List Nat) (fuel : Nat) {c : Ctx} {ci : List Assoc.CI}
+    (e : Pass.shape font text fuel = .ok (some (c, ci))) :
+    Forest c.seg ∧ ∃ l, Linked c.seg l ∧ Clean c.seg l ∧ ∀ j ∈ l, Real c.seg j :=
+  ⟨Pass.shape_forest font text fuel e, by
+    obtain ⟨l, h1, h2⟩ := Pass.shape_wf font text fuel e
+    exact ⟨l, h1, h2, fun j hj => (h2.live j hj).2⟩⟩
+
+/-- what the forest means for a client that walks the pointers -/
+theorem forest_for_clients {s : Seg} (hF : Forest s) :
+    -- from every real slot the walk along `attached_to` reaches a base
+    (∀ j, Real s j → ∃ k r, up s k j = some r ∧ (s.get r).parent = none) ∧
+    -- a slot with a parent occurs exactly once in the chain `first_attachment(parent), next_sibling_attachment, …`
+    (∀ j p, Real s j → (s.get j).parent = some p → ∃ l, SibChain s (s.get p).child l ∧ l.count j = 1) ∧
+    -- every member of such a chain names that parent, and the chain holds every slot that does
+    (∀ p l, Real s p → SibChain s (s.get p).child l → (∀ j ∈ l, (s.get j).parent = some p) ∧
+      ∀ j, Real s j → (s.get j).parent = some p → j ∈ l) := by
+  refine ⟨?_, ?_, ?_⟩
+  · obtain ⟨d, hd⟩ := hF.acyc
+    -- induction on the depth
+    have : ∀ n j, d j ≤ n → Real s j → ∃ k r, up s k j = some r ∧ (s.get r).parent = none := by
+      intro n
+      induction n with
+      | zero =>
+        intro j hn hj
+        cases hp : (s.get j).parent with
+        | none => exact ⟨0, j, rfl, hp⟩
+        | some p => have := hd j p hj hp; omega
+      | succ n ih =>
+        intro j hn hj
+        cases hp : (s.get j).parent with
+        | none => exact ⟨0, j, rfl, hp⟩
+        | some p =>
+          have hlt := hd j p hj hp
+          obtain ⟨k, r, h1, h2⟩ := ih p (by omega) (hF.par j p hj hp).1
+          exact ⟨k + 1, r, by simp only [up, hp]; exact h1, h2⟩
+    exact fun j hj => this (d j) j (Nat.le_refl _) hj
+  · intro j p hj hp
+    obtain ⟨l, hk⟩ := hF.kids p (hF.par j p hj hp).1
+    exact ⟨l, hk.chain, by rw [hk.nodup.count, if_pos (hk.all j hj hp)]⟩
+  · intro p l hp hch
+    obtain ⟨l', hk⟩ := hF.kids p hp
+    have : l = l' := sibChain_unique hch hk.chain
+    subst this
+    exact ⟨fun j hj => (hk.mem j hj).1, hk.all⟩
 
 /-! ### non-vacuity: attaching 1 to 0 and then 0 to 1 – the second attach is refused -/
 def seg3 : Seg := { slots := #[{}, {}, {}], first := some 0, last := some 2, numGlyphs := 3, numChars := 3 }
